@@ -177,6 +177,14 @@ def build(cfg):
         known=([""] if cfg["reverse_needed"] else (len(cfg["alpha"]) + 1 if cfg["sep"] == "reverse" else None)),
         reverse_needed=cfg["reverse_needed"], rot=cfg["rot"], sep=cfg["sep"], packver=cfg.get("packver"),
     )
+    if cfg.get("depver"):
+        # a verification strategy whose rules have a child (the class it is declared to depend on)
+        from comb_spec_searcher import StrategyPack
+
+        pack = StrategyPack(initial_strats=list(pack.initial_strats), inferral_strats=list(pack.inferral_strats),
+                            expansion_strats=[list(ss) for ss in pack.expansion_strats],
+                            ver_strats=list(pack.ver_strats) + [upword.DepVer(cfg["depver"])],
+                            name=pack.name, symmetries=list(pack.symmetries), iterative=pack.iterative)
     root = PW(cfg["prefix"], cfg["patterns"], cfg["alpha"], False, cfg["params"])
     if cfg["db"] == "RuleDBForest":
         db = RuleDBForest(reverse=cfg["reverse"])
